@@ -55,7 +55,7 @@ structure Config where
   maxBodySize : Int
   maxMsgSize : Int
   maxReqTimeoutNs : Int
-  deriving Repr
+  deriving Repr, DecidableEq
 
 /-- `New`: a client-cert policy forces TLS-required. -/
 def effTlsRequired (o : Options) : TlsReq :=
@@ -154,7 +154,7 @@ structure AuthState where
   expires : Int
   identity : String
   url : String
-  deriving Repr
+  deriving Repr, DecidableEq
 
 /-- `auth.QueryAuthd`, "validation on response": permission names. -/
 def permsKnown : List String → Bool
